@@ -110,6 +110,9 @@ def run_case(case):
     cl = [rand_cond(rng, sig) for _ in range(k)]
     if k >= 2 and rng.random() < 0.1:
         cl[1] = cl[0]                                 # duplicate under another index
+    elif k >= 2 and n >= 2 and rng.random() < 0.15:
+        t1, t2 = gen.deep_twins(rng, sig, [])         # two conditionals identical down to nesting depth >= 6
+        cl[0], cl[1] = t1, t2
     cbi = dict(zip(idxs, cl))
     desc = {'signature': sig, 'prior': ranks if n <= 3 else rl, 'conditionals': {i: fml.cond_text(*c) for i, c in cbi.items()}}
 
@@ -125,7 +128,35 @@ def run_case(case):
         d['input'] = desc
         res['violations'].append({'sig': 'crev:' + sig_, 'detail': d})
 
+    prior_kind = 'custom'
+    if rng.random() < 0.25 and n >= 2:
+        # a lazily ranked prior (System Z or c-representation of a generated base): no rank computed yet
+        for _ in range(20):
+            ps, pc, _ = gen.gen_base(rng, 'strong', family='rand', nat=n, ncond=rng.randint(1, 4))
+            if list(ps) == list(sig):
+                break
+        else:
+            pc = None
+        if pc is not None:
+            prior_kind = rng.choice(['system-z', 'c-rep'])
+            try:
+                pr = (PreOCF.init_system_z(impl.mk_bb(sig, pc)) if prior_kind == 'system-z'
+                      else PreOCF.init_random_min_c_rep(impl.mk_bb(sig, pc)))
+                full = pr.compute_all_ranks()
+                ranks = dict(full)
+                rl = [ranks[fml.world_str(w, sig)] for w in range(1 << n)]
+                rw = {w: rl[w] for w in range(1 << n)}
+                shape = 'lazy-' + prior_kind
+                desc['prior'] = {'kind': prior_kind, 'base': [fml.cond_text(*x) for x in pc], 'ranks': ranks if n <= 3 else rl}
+                bump('lazily_ranked_priors')
+            except Exception as e:
+                prior_kind = 'custom'
+
     def mkocf():
+        if prior_kind == 'system-z':
+            return PreOCF.init_system_z(impl.mk_bb(sig, pc))
+        if prior_kind == 'c-rep':
+            return PreOCF.init_random_min_c_rep(impl.mk_bb(sig, pc))
         return PreOCF.init_custom(dict(ranks), None, list(sig))
 
     if kind == 'compile':
